@@ -5,26 +5,26 @@ import json
 
 ARN = "arn:aws:states:local:0123456789:stateMachine:"
 FN = "arn:aws:rpcmessage:local::function:"
-PATHS_IN = ["$", "$", "$", "$.a", "$.b", "$.items", "$.n", "$.r", "$.t", "$.a.b", "$.missing", "$.a.c[0]"]
-PATHS_OUT = ["$", "$", "$", "$.r", "$.t", "$.a", "$.out", "$.a.z", "$.n", "$.items[0]"]
+PATHS_IN = ["$", "$", "$", "$", "$", "$", "$", "$", "$.a", "$.items", "$.missing", "$.a.c[0]"]
+PATHS_OUT = ["$.r", "$.t", "$.r", "$.t", "$.out", "$.a.z", "$.res", "$.out2", "$", "$.items[0]"]
 ERRORS = ["Custom.Error", "States.TaskFailed", "Other", "States.Permissions", "Worker.Timeout"]
 
 
 def gen_input(rng):
     r = rng.random()
-    if r < 0.08:
+    if r < 0.04:
         return rng.choice([[], {}, 0, "s", None, [1, 2], True])
     d = {}
-    if rng.random() < 0.8:
+    if rng.random() < 0.95:
         d["a"] = {"b": rng.randint(0, 5), "c": [rng.randint(0, 3) for _ in range(rng.randint(0, 3))]}
-    if rng.random() < 0.7:
+    if rng.random() < 0.95:
         d["b"] = rng.choice(["x", "y", "", "Error", "hello"])
-    if rng.random() < 0.85:
+    if rng.random() < 0.95:
         d["items"] = [rng.choice([rng.randint(0, 9), {"k": rng.randint(0, 3)}, "s%d" % rng.randint(0, 3)])
                       for _ in range(rng.randint(0, 4))]
         if rng.random() < 0.5:      # distinct items (so task payloads in a Map differ)
             d["items"] = list(range(len(d["items"])))
-    if rng.random() < 0.8:
+    if rng.random() < 0.95:
         d["n"] = rng.randint(-2, 6)
     if rng.random() < 0.4:
         d["flag"] = rng.random() < 0.5
@@ -56,8 +56,8 @@ class Gen(object):
             r = rng.random()
             k = keys.pop()
             if r < 0.45:
-                t[k + ".$"] = rng.choice(["$", "$.a", "$.n", "$.items", "$.b", "$.a.b", "$.missing", "$$.Execution.Name",
-                                          "$$.State.Name", "$$.Execution.Input", "$$.StateMachine.Id"])
+                t[k + ".$"] = rng.choice(["$", "$", "$", "$$.Execution.Name", "$$.State.Name", "$$.Execution.Input",
+                                          "$$.StateMachine.Id", "$", "$$.Execution.Input.n", "$.missing"])
             elif r < 0.6 and in_map:
                 t[k + ".$"] = rng.choice(["$$.Map.Item.Value", "$$.Map.Item.Index"])
             elif r < 0.72:
@@ -72,7 +72,7 @@ class Gen(object):
             elif r < 0.8:
                 t[k] = rng.choice([1, "lit", True, None, [1, "a"], {"z": 0}])
             else:
-                t[k] = {"in.$": rng.choice(["$.a", "$", "$.n"]), "c": rng.randint(0, 3)}
+                t[k] = {"in.$": rng.choice(["$", "$", "$$.Execution.Input.a"]), "c": rng.randint(0, 3)}
         return t
 
     def retry_list(self):
@@ -153,9 +153,9 @@ class Gen(object):
                     st["Next"] = succ
                 else:
                     st["End"] = True
-            if rng.random() < 0.3:
+            if rng.random() < 0.15:
                 st["InputPath"] = rng.choice(PATHS_IN + [None])
-            if rng.random() < 0.25 and k != "Fail":
+            if rng.random() < 0.12 and k != "Fail":
                 st["OutputPath"] = rng.choice(PATHS_IN + [None])
             if k in ("Pass", "Task", "Parallel", "Map") and rng.random() < 0.55:
                 st["ResultPath"] = rng.choice(PATHS_OUT + [None])
